@@ -1,4 +1,367 @@
-"""Fail-closed translator: regenerates coq/Gen/*.v from /repo on every run (DESIGN.md 4.2)."""
+#!/usr/bin/env python3
+"""Fail-closed translator: regenerates coq/Gen/Kernels.v from /repo's current source on every setup.
+
+Small pure kernels of the implementation (decision tables and integer rules) are translated from their
+Python AST into Gallina definitions; coq/Gen/KernelsEq.v (hand-written, part of the normal build) proves
+each generated definition equal to the corresponding definition of the hand-written model for ALL
+arguments. An edit of one of these kernels in /repo therefore changes the generated text and breaks a
+proof obligation of KernelsEq.v (or, if the edit leaves the supported subset, the translation itself):
+either way setup fails and every check reports the broken obligation.
+
+Supported subset (anything else raises Unsupported -> non-zero exit):
+  statements : docstring, `if c: <block> [else: <block>]`, `x = e`, `return e`, `match e: case ...`, `raise ...`
+  patterns   : Enum.MEMBER, `A | B`, `_`, string constants
+  expressions: names, int/bool constants, Enum.MEMBER, ==, !=, <=, <, chained comparisons, and/or/not, + -,
+               `a in self.transitions[b]`, `self._match_state(e)`, self.<field>
+Kernels:
+  transitions.py     Transition._match_state, Transition.is_valid_transition, MachineTransition/TransportTransition tables
+  buffer_type_utils  is_correct_position_for_buffer_type
+  middleware.py      SubTimeStepper.should_truncate
+"""
+import ast
+import os
 import sys
+from pathlib import Path
+
+REPO = Path(os.environ.get("JSL_REPO", "/repo"))
+OUT = Path(__file__).resolve().parent.parent / "coq" / "Gen" / "Kernels.v"
+
+
+class Unsupported(Exception):
+    pass
+
+
+def parse(rel):
+    return ast.parse((REPO / rel).read_text())
+
+
+def find_class(mod, name):
+    for n in mod.body:
+        if isinstance(n, ast.ClassDef) and n.name == name:
+            return n
+    raise Unsupported("class %s not found" % name)
+
+
+def find_func(body, name):
+    for n in body:
+        if isinstance(n, ast.FunctionDef) and n.name == name:
+            return n
+    raise Unsupported("function %s not found" % name)
+
+
+def enum_members(mod, cls):
+    out = []
+    for n in find_class(mod, cls).body:
+        if isinstance(n, ast.Assign) and len(n.targets) == 1 and isinstance(n.targets[0], ast.Name) \
+                and isinstance(n.value, ast.Constant) and isinstance(n.value.value, str):
+            out.append((n.targets[0].id, n.value.value))
+    if not out:
+        raise Unsupported("enum %s has no members" % cls)
+    return out
+
+
+# model constructor names of the enum members (unknown member -> fail closed)
+MSTATE = {"IDLE": "MIdle", "SETUP": "MSetup", "WORKING": "MWorking", "OUTAGE": "MOutage"}
+TSTATE = {"IDLE": "TIdle", "WORKING": "TWorking", "PICKUP": "TPickup", "TRANSIT": "TTransit", "OUTAGE": "TOutage",
+          "WAITINGPICKUP": "TWaiting"}
+CAT = {"IDLE": "KIdle", "SETUP": "KSetup", "RUNNING": "KRunning", "OUTAGE": "KOutage"}
+BTYPE = {"FIFO": "Fifo", "LIFO": "Lifo", "DUMMY": "Dummy", "FLEX_BUFFER": "Flex"}
+ENUMS = {"MachineStateState": ("(NM %s)", MSTATE), "TransportStateState": ("(NT %s)", TSTATE),
+         "StateEnum": ("%s", CAT), "BufferTypeConfig": ("%s", BTYPE)}
+
+
+def enum_const(node):
+    """Enum.MEMBER -> Coq constructor"""
+    if isinstance(node, ast.Attribute) and isinstance(node.value, ast.Name) and node.value.id in ENUMS:
+        fmt, tab = ENUMS[node.value.id]
+        if node.attr not in tab:
+            raise Unsupported("unknown member %s.%s" % (node.value.id, node.attr))
+        return fmt % tab[node.attr]
+    return None
+
+
+class Fn:
+    """translation of one function body; env: python name -> (coq term, type)"""
+
+    def __init__(self, env, ret, may_raise, eqs):
+        self.env, self.ret, self.may_raise, self.eqs = dict(env), ret, may_raise, eqs
+
+    def ty(self, node):
+        c = enum_const(node)
+        if c is not None:
+            return {"MachineStateState": "nstate", "TransportStateState": "nstate", "StateEnum": "cat",
+                    "BufferTypeConfig": "btype"}[node.value.id]
+        if isinstance(node, ast.Name):
+            return self.env[node.id][1]
+        if isinstance(node, ast.Constant):
+            return "bool" if isinstance(node.value, bool) else "Z"
+        if isinstance(node, ast.BinOp):
+            return "Z"
+        if isinstance(node, ast.Attribute) and isinstance(node.value, ast.Name) and node.value.id == "self":
+            return self.env["self." + node.attr][1]
+        if isinstance(node, ast.Call):
+            return "cat"
+        raise Unsupported("type of " + ast.dump(node)[:80])
+
+    def expr(self, n):
+        c = enum_const(n)
+        if c is not None:
+            return c
+        if isinstance(n, ast.Name):
+            if n.id not in self.env:
+                raise Unsupported("free name " + n.id)
+            return self.env[n.id][0]
+        if isinstance(n, ast.Constant):
+            if isinstance(n.value, bool):
+                return "true" if n.value else "false"
+            if isinstance(n.value, int):
+                return "(%d)%%Z" % n.value
+            raise Unsupported("constant %r" % (n.value,))
+        if isinstance(n, ast.Attribute) and isinstance(n.value, ast.Name) and n.value.id == "self":
+            key = "self." + n.attr
+            if key not in self.env:
+                raise Unsupported("field " + key)
+            return self.env[key][0]
+        if isinstance(n, ast.UnaryOp) and isinstance(n.op, ast.Not):
+            return "(negb %s)" % self.expr(n.operand)
+        if isinstance(n, ast.BoolOp):
+            op = "andb" if isinstance(n.op, ast.And) else "orb"
+            acc = self.expr(n.values[0])
+            for v in n.values[1:]:
+                acc = "(%s %s %s)" % (op, acc, self.expr(v))
+            return acc
+        if isinstance(n, ast.BinOp) and isinstance(n.op, (ast.Add, ast.Sub)):
+            return "(%s %s %s)%%Z" % (self.expr(n.left), "+" if isinstance(n.op, ast.Add) else "-", self.expr(n.right))
+        if isinstance(n, ast.Compare):
+            parts, left = [], n.left
+            for op, right in zip(n.ops, n.comparators):
+                parts.append(self.cmp(op, left, right))
+                left = right
+            acc = parts[0]
+            for p in parts[1:]:
+                acc = "(andb %s %s)" % (acc, p)
+            return acc
+        if isinstance(n, ast.Call) and isinstance(n.func, ast.Attribute) and isinstance(n.func.value, ast.Name) \
+                and n.func.value.id == "self" and n.func.attr == "_match_state" and len(n.args) == 1:
+            return "(gen_match_state %s)" % self.expr(n.args[0])
+        raise Unsupported("expression " + ast.dump(n)[:100])
+
+    def cmp(self, op, a, b):
+        if isinstance(op, ast.In):
+            # a in self.transitions[b]
+            if isinstance(b, ast.Subscript) and isinstance(b.value, ast.Attribute) and b.value.attr == "transitions":
+                return "(existsb (cat_eqb %s) (table %s))" % (self.expr(a), self.expr(b.slice))
+            raise Unsupported("in")
+        t = self.ty(a)
+        ea, eb = self.expr(a), self.expr(b)
+        if isinstance(op, (ast.Eq, ast.NotEq)):
+            f = self.eqs[t]
+            e = "(%s %s %s)" % (f, ea, eb)
+            return e if isinstance(op, ast.Eq) else "(negb %s)" % e
+        if t != "Z":
+            raise Unsupported("ordering on " + t)
+        if isinstance(op, ast.LtE):
+            return "(%s <=? %s)%%Z" % (ea, eb)
+        if isinstance(op, ast.Lt):
+            return "(%s <? %s)%%Z" % (ea, eb)
+        if isinstance(op, ast.GtE):
+            return "(%s <=? %s)%%Z" % (eb, ea)
+        if isinstance(op, ast.Gt):
+            return "(%s <? %s)%%Z" % (eb, ea)
+        raise Unsupported("comparison")
+
+    def wrap(self, e):
+        return "(Some %s)" % e if self.may_raise else e
+
+    def block(self, stmts):
+        """a block that ends in return/raise on every path"""
+        if not stmts:
+            raise Unsupported("block falls through")
+        s, rest = stmts[0], stmts[1:]
+        if isinstance(s, ast.Expr) and isinstance(s.value, ast.Constant) and isinstance(s.value.value, str):
+            return self.block(rest)
+        if isinstance(s, ast.Return):
+            if s.value is None:
+                raise Unsupported("bare return")
+            return self.wrap(self.expr(s.value))
+        if isinstance(s, ast.Raise):
+            if not self.may_raise:
+                raise Unsupported("raise in a total kernel")
+            return "None"
+        if isinstance(s, ast.Assign) and len(s.targets) == 1 and isinstance(s.targets[0], ast.Name):
+            name = s.targets[0].id
+            e, t = self.expr(s.value), self.ty(s.value)
+            v = "v_" + name.strip("_")
+            self.env[name] = (v, t)
+            return "(let %s := %s in %s)" % (v, e, self.block(rest))
+        if isinstance(s, ast.If):
+            then = self.block(s.body)
+            els = self.block(s.orelse if s.orelse else rest)
+            return "(if %s then %s else %s)" % (self.expr(s.test), then, els)
+        if isinstance(s, ast.Match):
+            subj, t = self.expr(s.subject), self.ty(s.subject)
+            arms, seen_default, covered = [], False, set()
+            universe = {"btype": set(BTYPE.values()), "cat": set(CAT.values())}.get(t)
+            for c in s.cases:
+                if c.guard is not None:
+                    raise Unsupported("guard")
+                pats = self.pattern(c.pattern)
+                body = self.block(c.body)
+                if pats is None:
+                    # Coq rejects a redundant clause: the default arm is dropped (after translating it, so that an
+                    # unsupported default still fails) when the constructors are all covered
+                    if universe is None or covered != universe:
+                        arms.append("| _ => %s" % body)
+                    seen_default = True
+                    break
+                covered |= set(pats)
+                arms.append("| %s => %s" % (" | ".join(pats), body))
+            if not seen_default and (universe is None or covered != universe):
+                arms.append("| _ => %s" % self.block(rest))
+            return "(match %s with %s end)" % (subj, " ".join(arms))
+        raise Unsupported("statement " + type(s).__name__)
+
+    def pattern(self, p):
+        if isinstance(p, ast.MatchAs) and p.pattern is None:
+            return None
+        if isinstance(p, ast.MatchValue):
+            c = enum_const(p.value)
+            if c is None:
+                raise Unsupported("pattern value")
+            return [c]
+        if isinstance(p, ast.MatchOr):
+            out = []
+            for q in p.patterns:
+                r = self.pattern(q)
+                if r is None:
+                    raise Unsupported("wildcard in or-pattern")
+                out += r
+            return out
+        raise Unsupported("pattern " + type(p).__name__)
+
+
+EQS = {"nstate": "nstate_eqb", "cat": "cat_eqb", "Z": "Z.eqb", "bool": "Bool.eqb", "btype": "btype_eqb"}
+
+
+def gen_match_state(tmod, smod):
+    """_match_state is a match on state.value.lower() with string patterns: evaluated per enum member."""
+    f = find_func(find_class(tmod, "Transition").body, "_match_state")
+    m = [s for s in f.body if isinstance(s, ast.Match)]
+    if len(m) != 1:
+        raise Unsupported("_match_state: expected one match statement")
+    m = m[0]
+    subj = ast.unparse(m.subject)
+    if subj != "state.value.lower()":
+        raise Unsupported("_match_state subject " + subj)
+    cases = []
+    for c in m.cases:
+        if isinstance(c.pattern, ast.MatchAs) and c.pattern.pattern is None:
+            strings = None
+        else:
+            pats = c.pattern.patterns if isinstance(c.pattern, ast.MatchOr) else [c.pattern]
+            strings = []
+            for p in pats:
+                if not (isinstance(p, ast.MatchValue) and isinstance(p.value, ast.Constant) and isinstance(p.value.value, str)):
+                    raise Unsupported("_match_state pattern")
+                strings.append(p.value.value)
+        if len(c.body) != 1:
+            raise Unsupported("_match_state case body")
+        b = c.body[0]
+        if isinstance(b, ast.Return):
+            res = enum_const(b.value)
+            if res is None:
+                raise Unsupported("_match_state return")
+        elif isinstance(b, ast.Raise):
+            res = None
+        else:
+            raise Unsupported("_match_state case body")
+        cases.append((strings, res))
+    arms = []
+    for cls, fmt, tab in (("MachineStateState", "NM %s", MSTATE), ("TransportStateState", "NT %s", TSTATE)):
+        members = enum_members(smod, cls)
+        if {n for n, _ in members} != set(tab):
+            raise Unsupported("members of %s changed: %s" % (cls, [n for n, _ in members]))
+        for name, value in members:
+            low = value.lower()
+            hit = next((res for strings, res in cases if strings is None or low in strings), None)
+            if hit is None:
+                raise Unsupported("%s.%s maps to no category (NotImplementedError)" % (cls, name))
+            arms.append("  | %s => %s" % (fmt % tab[name], hit))
+    return "Definition gen_match_state (s : nstate) : cat :=\n  match s with\n%s\n  end.\n" % "\n".join(arms)
+
+
+def gen_table(tmod, cls, name):
+    init = find_func(find_class(tmod, cls).body, "__init__")
+    d = None
+    for s in init.body:
+        if isinstance(s, ast.Assign) and isinstance(s.targets[0], ast.Name) and s.targets[0].id == "transitions":
+            d = s.value
+    if not isinstance(d, ast.Dict):
+        raise Unsupported("%s: transitions is not a dict literal" % cls)
+    rows = {}
+    for k, v in zip(d.keys, d.values):
+        kk = enum_const(k)
+        if kk is None or not isinstance(v, ast.Tuple):
+            raise Unsupported("%s: table entry" % cls)
+        vals = [enum_const(e) for e in v.elts]
+        if None in vals:
+            raise Unsupported("%s: table value" % cls)
+        if kk in rows:
+            raise Unsupported("%s: duplicate key" % cls)
+        rows[kk] = vals
+    arms = ["  | %s => [%s]" % (c, "; ".join(rows.get(c, []))) for c in ("KIdle", "KSetup", "KRunning", "KOutage")]
+    keys = "[%s]" % "; ".join(c for c in ("KIdle", "KSetup", "KRunning", "KOutage") if c in rows)
+    return ("Definition %s (c : cat) : list cat :=\n  match c with\n%s\n  end.\n"
+            "Definition %s_keys : list cat := %s.\n" % (name, "\n".join(arms), name, keys))
+
+
+def main():
+    tmod = parse("jobshoplab/state_machine/core/transitions.py")
+    smod = parse("jobshoplab/types/state_types.py")
+    bmod = parse("jobshoplab/utils/state_machine_utils/buffer_type_utils.py")
+    mmod = parse("jobshoplab/state_machine/middleware/middleware.py")
+    imod = parse("jobshoplab/types/instance_config_types.py")
+    out = ["(* GENERATED by harness/translate_kernels.py from /repo - do not edit. *)",
+           "From Coq Require Import List ZArith Bool.",
+           "From JSL Require Import Base.Res SM.Types SM.Step.",
+           "Import ListNotations.", "",
+           "Definition btype_eqb (a b : btype) : bool :=",
+           "  match a, b with Fifo, Fifo | Lifo, Lifo | Flex, Flex | Dummy, Dummy => true | _, _ => false end.", ""]
+    if {n for n, _ in enum_members(imod, "BufferTypeConfig")} != set(BTYPE):
+        raise Unsupported("members of BufferTypeConfig changed")
+    out.append(gen_match_state(tmod, smod))
+    out.append(gen_table(tmod, "MachineTransition", "gen_machine_table"))
+    out.append(gen_table(tmod, "TransportTransition", "gen_transport_table"))
+    # is_valid_transition
+    f = find_func(find_class(tmod, "Transition").body, "is_valid_transition")
+    if [a.arg for a in f.args.args] != ["self", "current_state", "new_state"]:
+        raise Unsupported("is_valid_transition signature")
+    fn = Fn({"current_state": ("cur", "nstate"), "new_state": ("new", "nstate")}, "bool", False, EQS)
+    out.append("Definition gen_is_valid_transition (table : cat -> list cat) (cur new : nstate) : bool :=\n  %s.\n" % fn.block(f.body))
+    # is_correct_position_for_buffer_type
+    f = find_func(bmod.body, "is_correct_position_for_buffer_type")
+    if [a.arg for a in f.args.args] != ["job_position", "buffer_length", "buffer_type"]:
+        raise Unsupported("is_correct_position_for_buffer_type signature")
+    fn = Fn({"job_position": ("pos", "Z"), "buffer_length": ("len", "Z"), "buffer_type": ("ty", "btype")}, "bool", False, EQS)
+    out.append("Definition gen_is_correct_position (pos len : Z) (ty : btype) : bool :=\n  %s.\n" % fn.block(f.body))
+    # SubTimeStepper.should_truncate
+    f = find_func(find_class(mmod, "SubTimeStepper").body, "should_truncate")
+    fn = Fn({"self.trunction_active": ("active", "bool"), "self.action_counter": ("actions", "Z"),
+             "self.no_op_counter": ("noops", "Z")}, "bool", False, EQS)
+    out.append("Definition gen_should_truncate (active : bool) (noops actions : Z) : bool :=\n  %s.\n" % fn.block(f.body))
+    OUT.parent.mkdir(parents=True, exist_ok=True)
+    text = "\n".join(out)
+    if not OUT.exists() or OUT.read_text() != text:
+        OUT.write_text(text)
+    return 0
+
+
 if __name__ == "__main__":
-    sys.exit(0)
+    try:
+        sys.exit(main())
+    except Unsupported as e:
+        sys.stderr.write("translate_kernels: UNSUPPORTED: %s\n" % e)
+        # fail closed: leave a file that cannot compile, so that a stale Kernels.v is never used
+        OUT.parent.mkdir(parents=True, exist_ok=True)
+        OUT.write_text("(* translation failed: %s *)\nTranslation failed.\n" % str(e).replace("*)", "* )"))
+        sys.exit(3)
